@@ -35,11 +35,12 @@ struct Args {
     out: String,
     map: String,
     vacuity: bool,
+    localise: bool,
     only: Option<String>,
 }
 
 fn parse_args() -> Args {
-    let mut a = Args { repo: "/repo".into(), kcs: vec![], out: String::new(), map: String::new(), vacuity: false, only: None };
+    let mut a = Args { repo: "/repo".into(), kcs: vec![], out: String::new(), map: String::new(), vacuity: false, localise: false, only: None };
     let mut it = std::env::args().skip(1);
     while let Some(x) = it.next() {
         match x.as_str() {
@@ -48,6 +49,7 @@ fn parse_args() -> Args {
             "--out" => a.out = it.next().unwrap(),
             "--map" => a.map = it.next().unwrap(),
             "--vacuity" => a.vacuity = true,
+            "--localise" => a.localise = true,
             "--only" => a.only = it.next(),
             _ => fatal(&format!("unknown argument {}", x)),
         }
@@ -127,6 +129,7 @@ fn weave_fn(
     vacuity: bool,
     indent: &str,
     self_fx: &[(String, usize)],
+    localise: bool,
 ) {
     let src = &file.text;
     let start = lo(sig.span());
@@ -165,6 +168,9 @@ fn weave_fn(
     w.weave_sig(sig, assoc, is_trait_impl);
     if vacuity {
         w.set_vacuity();
+    }
+    if localise {
+        w.set_localise();
     }
     w.weave_body(block);
     let mut edits = std::mem::take(&mut w.edits);
@@ -410,7 +416,7 @@ fn main() {
                         if args.only.as_ref().map(|o| !keys[0].contains(o.as_str())).unwrap_or(false) {
                             continue;
                         }
-                        weave_fn(file, &unit, &mut ctx, &mut out, keys[0].clone(), c, &f.attrs, &f.sig, &f.block, &BTreeMap::new(), false, args.vacuity, "", &[]);
+                        weave_fn(file, &unit, &mut ctx, &mut out, keys[0].clone(), c, &f.attrs, &f.sig, &f.block, &BTreeMap::new(), false, args.vacuity, "", &[], args.localise);
                     } else {
                         uncontracted.push(serde_json::json!({"func": keys[0], "file": fname, "src_line": line_of(&file.text, lo(f.sig.span()))}));
                     }
@@ -479,7 +485,7 @@ fn main() {
                             if args.only.as_ref().map(|o| !label.contains(o.as_str())).unwrap_or(false) {
                                 continue;
                             }
-                            weave_fn(file, &unit, &mut ctx, &mut out, label.clone(), c, &f.attrs, &f.sig, &f.block, &assoc, is_trait, args.vacuity, "    ", &self_fx);
+                            weave_fn(file, &unit, &mut ctx, &mut out, label.clone(), c, &f.attrs, &f.sig, &f.block, &assoc, is_trait, args.vacuity, "    ", &self_fx, args.localise);
                         } else {
                             uncontracted.push(serde_json::json!({"func": label, "file": fname, "src_line": line_of(&file.text, lo(f.sig.span()))}));
                         }
